@@ -41,19 +41,37 @@ Definition zrange (n : Z) : list Z := map Z.of_nat (seq 0 (Z.to_nat n)).
 (* enumerate(l) *)
 Definition enumerate_z {A : Type} (l : list A) : list (Z * A) := combine (map Z.of_nat (seq 0 (length l))) l.
 
-(* [x for x in l if c(x)] whose condition may raise: conditions are evaluated left to right, the first
-   exception ends the comprehension *)
+(* l[i] on a list: a negative index counts from the end; out of range is an IndexError (Err 98) *)
+Definition list_get {A : Type} (l : list A) (i : Z) : result A :=
+  let j := if i <? 0 then i + Z.of_nat (length l) else i in
+  if j <? 0 then Err 98
+  else match nth_error l (Z.to_nat j) with Some a => Ok a | None => Err 98 end.
+(* ---- additions for scoring/main.py ---- *)
+(* d[k] = v on a dict with integer keys: an existing key keeps its place and gets the new value, a new key goes last *)
+Fixpoint dict_set {V : Type} (d : list (Z * V)) (k : Z) (v : V) : list (Z * V) :=
+  match d with
+  | [] => [(k, v)]
+  | (k', v') :: r => if k' =? k then (k', v) :: r else (k', v') :: dict_set r k v
+  end.
+(* [x for x in l if p x] where p may raise: p is evaluated element by element from the left *)
 Fixpoint res_filter {A : Type} (p : A -> result bool) (l : list A) : result (list A) :=
   match l with
   | [] => Ok []
-  | a :: r => dor b <- p a; dor rs <- res_filter p r; Ok (if b then a :: rs else rs)
+  | a :: r => dor b <- p a; dor r' <- res_filter p r; Ok (if b then a :: r' else r')
   end.
-
+(* truth value of an Optional[list]: None and [] are false *)
+Definition opt_list_truthy {A : Type} (o : option (list A)) : bool :=
+  match o with Some (_ :: _) => true | _ => false end.
+(* a[i] = v on a list / numpy array: negative indices wrap once, IndexError (Err tag) outside -len..len-1 *)
+Definition list_set {A : Type} (tag : Z) (l : list A) (i : Z) (v : A) : result (list A) :=
+  let n := Z.of_nat (length l) in
+  let j := if i <? 0 then i + n else i in
+  if (0 <=? j) && (j <? n) then Ok (firstn (Z.to_nat j) l ++ v :: skipn (S (Z.to_nat j)) l) else Err tag.
 (* `while True:` left by `break`: the body answers (go on?, state); recursion on explicit fuel.  Running out of
-   fuel is not a Python behaviour (Err 98): linking theorems are stated for sufficient fuel. *)
+   fuel is not a Python behaviour (Err 97): linking theorems are stated for sufficient fuel. *)
 Fixpoint res_while {St : Type} (fuel : nat) (body : St -> result (bool * St)) (s : St) : result St :=
   match fuel with
-  | O => Err 98
+  | O => Err 97
   | S n => dor r <- body s; if fst r then res_while n body (snd r) else Ok (snd r)
   end.
 
